@@ -1996,4 +1996,388 @@ def region32_translate_single (box0_x1 : Int) (box0_y1 : Int) (box0_x2 : Int) (b
   let data_ptr := 0
   (0, ext_x1, ext_y1, ext_x2, ext_y2, data_ptr)
 
+/-- `pixman/pixman-region32.c:validate`, condition of if #9 (status 1 = true) (mixed mode).  Arguments: box_y1 : int32_t, ri_box_y1 : int32_t, box_y2 : int32_t, ri_box_y2 : int32_t.  Result: (status : 0 loop ends / 1 next iteration / 2.. n-th return). -/
+def region32_validate_same_band (box_y1 : Int) (ri_box_y1 : Int) (box_y2 : Int) (ri_box_y2 : Int) : Int :=
+  if (box_y1 = ri_box_y1) ∧ (box_y2 = ri_box_y2) then
+    (1)
+  else
+    (0)
+
+/-- `pixman/pixman-region32.c:validate`, condition of if #10 (status 1 = true) (mixed mode).  Arguments: box_x1 : int32_t, ri_box_x2 : int32_t.  Result: (status : 0 loop ends / 1 next iteration / 2.. n-th return). -/
+def region32_validate_merge (box_x1 : Int) (ri_box_x2 : Int) : Int :=
+  if box_x1 ≤ ri_box_x2 then
+    (1)
+  else
+    (0)
+
+/-- `pixman/pixman-region32.c:validate`, condition of if #11 (status 1 = true) (mixed mode).  Arguments: box_x2 : int32_t, ri_box_x2 : int32_t.  Result: (status : 0 loop ends / 1 next iteration / 2.. n-th return). -/
+def region32_validate_extend (box_x2 : Int) (ri_box_x2 : Int) : Int :=
+  if box_x2 > ri_box_x2 then
+    (1)
+  else
+    (0)
+
+/-- `pixman/pixman-region32.c:validate`, condition of if #14 (status 1 = true) (mixed mode).  Arguments: box_y1 : int32_t, ri_box_y2 : int32_t.  Result: (status : 0 loop ends / 1 next iteration / 2.. n-th return). -/
+def region32_validate_new_band (box_y1 : Int) (ri_box_y2 : Int) : Int :=
+  if box_y1 ≥ ri_box_y2 then
+    (1)
+  else
+    (0)
+
+/-- `pixman/pixman-region32.c:validate`, condition of if #15 (status 1 = true) (mixed mode).  Arguments: ri_box_x2 : int32_t, reg_ext_x2 : int32_t.  Result: (status : 0 loop ends / 1 next iteration / 2.. n-th return). -/
+def region32_validate_ext_x2 (ri_box_x2 : Int) (reg_ext_x2 : Int) : Int :=
+  if reg_ext_x2 < ri_box_x2 then
+    (1)
+  else
+    (0)
+
+/-- `pixman/pixman-region32.c:validate`, condition of if #16 (status 1 = true) (mixed mode).  Arguments: box_x1 : int32_t, reg_ext_x1 : int32_t.  Result: (status : 0 loop ends / 1 next iteration / 2.. n-th return). -/
+def region32_validate_ext_x1 (box_x1 : Int) (reg_ext_x1 : Int) : Int :=
+  if reg_ext_x1 > box_x1 then
+    (1)
+  else
+    (0)
+
+/-- `pixman/pixman-region32.c:pixman_region32_intersect`, condition of if #0 (status 1 = true) (mixed mode).  Arguments: reg1_data : uint64_t, reg1_numRects : int64_t, reg1_x1 : int32_t, reg1_y1 : int32_t, reg1_x2 : int32_t, reg1_y2 : int32_t, reg2_data : uint64_t, reg2_numRects : int64_t, reg2_x1 : int32_t, reg2_y1 : int32_t, reg2_x2 : int32_t, reg2_y2 : int32_t.  Result: (status : 0 loop ends / 1 next iteration / 2.. n-th return). -/
+def region32_intersect_nil_or_apart (reg1_data : Nat) (reg1_numRects : Int) (reg1_x1 : Int) (reg1_y1 : Int) (reg1_x2 : Int) (reg1_y2 : Int) (reg2_data : Nat) (reg2_numRects : Int) (reg2_x1 : Int) (reg2_y1 : Int) (reg2_x2 : Int) (reg2_y2 : Int) : Int :=
+  if (((reg1_data ≠ 0) ∧ (reg1_numRects = 0)) ∨ ((reg2_data ≠ 0) ∧ (reg2_numRects = 0))) ∨ (¬(¬((((reg1_x2 ≤ reg2_x1) ∨ (reg1_x1 ≥ reg2_x2)) ∨ (reg1_y2 ≤ reg2_y1)) ∨ (reg1_y1 ≥ reg2_y2)))) then
+    (1)
+  else
+    (0)
+
+/-- `pixman/pixman-region32.c:pixman_region32_intersect`, condition of if #2 (status 1 = true) (mixed mode).  Arguments: pixman_broken_data : uint64_t, reg1_data : uint64_t, reg2_data : uint64_t.  Result: (status : 0 loop ends / 1 next iteration / 2.. n-th return). -/
+def region32_intersect_nar (pixman_broken_data : Nat) (reg1_data : Nat) (reg2_data : Nat) : Int :=
+  if (reg1_data = pixman_broken_data) ∨ (reg2_data = pixman_broken_data) then
+    (1)
+  else
+    (0)
+
+/-- `pixman/pixman-region32.c:pixman_region32_intersect`, condition of if #3 (status 1 = true) (mixed mode).  Arguments: reg1_data : uint64_t, reg2_data : uint64_t.  Result: (status : 0 loop ends / 1 next iteration / 2.. n-th return). -/
+def region32_intersect_both_single (reg1_data : Nat) (reg2_data : Nat) : Int :=
+  if (reg1_data = 0) ∧ (reg2_data = 0) then
+    (1)
+  else
+    (0)
+
+/-- `pixman/pixman-region32.c:pixman_region32_intersect`, condition of if #5 (status 1 = true) (mixed mode).  Arguments: reg1_x1 : int32_t, reg1_y1 : int32_t, reg1_x2 : int32_t, reg1_y2 : int32_t, reg2_data : uint64_t, reg2_x1 : int32_t, reg2_y1 : int32_t, reg2_x2 : int32_t, reg2_y2 : int32_t.  Result: (status : 0 loop ends / 1 next iteration / 2.. n-th return). -/
+def region32_intersect_reg2_covers (reg1_x1 : Int) (reg1_y1 : Int) (reg1_x2 : Int) (reg1_y2 : Int) (reg2_data : Nat) (reg2_x1 : Int) (reg2_y1 : Int) (reg2_x2 : Int) (reg2_y2 : Int) : Int :=
+  if (reg2_data = 0) ∧ ((((reg2_x1 ≤ reg1_x1) ∧ (reg2_x2 ≥ reg1_x2)) ∧ (reg2_y1 ≤ reg1_y1)) ∧ (reg2_y2 ≥ reg1_y2)) then
+    (1)
+  else
+    (0)
+
+/-- `pixman/pixman-region32.c:pixman_region32_intersect`, condition of if #6 (status 1 = true) (mixed mode).  Arguments: reg1_data : uint64_t, reg1_x1 : int32_t, reg1_y1 : int32_t, reg1_x2 : int32_t, reg1_y2 : int32_t, reg2_x1 : int32_t, reg2_y1 : int32_t, reg2_x2 : int32_t, reg2_y2 : int32_t.  Result: (status : 0 loop ends / 1 next iteration / 2.. n-th return). -/
+def region32_intersect_reg1_covers (reg1_data : Nat) (reg1_x1 : Int) (reg1_y1 : Int) (reg1_x2 : Int) (reg1_y2 : Int) (reg2_x1 : Int) (reg2_y1 : Int) (reg2_x2 : Int) (reg2_y2 : Int) : Int :=
+  if (reg1_data = 0) ∧ ((((reg1_x1 ≤ reg2_x1) ∧ (reg1_x2 ≥ reg2_x2)) ∧ (reg1_y1 ≤ reg2_y1)) ∧ (reg1_y2 ≥ reg2_y2)) then
+    (1)
+  else
+    (0)
+
+/-- `pixman/pixman-region32.c:pixman_region32_intersect`, condition of if #7 (status 1 = true) (mixed mode).  Arguments: reg1 : uint64_t, reg2 : uint64_t.  Result: (status : 0 loop ends / 1 next iteration / 2.. n-th return). -/
+def region32_intersect_same (reg1 : Nat) (reg2 : Nat) : Int :=
+  if reg1 = reg2 then
+    (1)
+  else
+    (0)
+
+/-- `pixman/pixman-region32.c:pixman_region32_union`, condition of if #3 (status 1 = true) (mixed mode).  Arguments: new_reg : uint64_t, reg2 : uint64_t.  Result: (status : 0 loop ends / 1 next iteration / 2.. n-th return). -/
+def region32_union_copy_reg2 (new_reg : Nat) (reg2 : Nat) : Int :=
+  if new_reg ≠ reg2 then
+    (1)
+  else
+    (0)
+
+/-- `pixman/pixman-region32.c:pixman_region32_union`, condition of if #6 (status 1 = true) (mixed mode).  Arguments: new_reg : uint64_t, reg1 : uint64_t.  Result: (status : 0 loop ends / 1 next iteration / 2.. n-th return). -/
+def region32_union_copy_reg1 (new_reg : Nat) (reg1 : Nat) : Int :=
+  if new_reg ≠ reg1 then
+    (1)
+  else
+    (0)
+
+/-- `pixman/pixman-region32.c:pixman_region32_union`, condition of if #8 (status 1 = true) (mixed mode).  Arguments: new_reg : uint64_t, reg1 : uint64_t.  Result: (status : 0 loop ends / 1 next iteration / 2.. n-th return). -/
+def region32_union_copy_covering_reg1 (new_reg : Nat) (reg1 : Nat) : Int :=
+  if new_reg ≠ reg1 then
+    (1)
+  else
+    (0)
+
+/-- `pixman/pixman-region32.c:pixman_region32_union`, condition of if #10 (status 1 = true) (mixed mode).  Arguments: new_reg : uint64_t, reg2 : uint64_t.  Result: (status : 0 loop ends / 1 next iteration / 2.. n-th return). -/
+def region32_union_copy_covering_reg2 (new_reg : Nat) (reg2 : Nat) : Int :=
+  if new_reg ≠ reg2 then
+    (1)
+  else
+    (0)
+
+/-- `pixman/pixman-region32.c:pixman_region32_union`, condition of if #0 (status 1 = true) (mixed mode).  Arguments: reg1 : uint64_t, reg2 : uint64_t.  Result: (status : 0 loop ends / 1 next iteration / 2.. n-th return). -/
+def region32_union_same (reg1 : Nat) (reg2 : Nat) : Int :=
+  if reg1 = reg2 then
+    (1)
+  else
+    (0)
+
+/-- `pixman/pixman-region32.c:pixman_region32_union`, condition of if #1 (status 1 = true) (mixed mode).  Arguments: reg1_data : uint64_t, reg1_numRects : int64_t.  Result: (status : 0 loop ends / 1 next iteration / 2.. n-th return). -/
+def region32_union_reg1_nil (reg1_data : Nat) (reg1_numRects : Int) : Int :=
+  if (reg1_data ≠ 0) ∧ (reg1_numRects = 0) then
+    (1)
+  else
+    (0)
+
+/-- `pixman/pixman-region32.c:pixman_region32_union`, condition of if #2 (status 1 = true) (mixed mode).  Arguments: pixman_broken_data : uint64_t, reg1_data : uint64_t.  Result: (status : 0 loop ends / 1 next iteration / 2.. n-th return). -/
+def region32_union_reg1_nar (pixman_broken_data : Nat) (reg1_data : Nat) : Int :=
+  if reg1_data = pixman_broken_data then
+    (1)
+  else
+    (0)
+
+/-- `pixman/pixman-region32.c:pixman_region32_union`, condition of if #4 (status 1 = true) (mixed mode).  Arguments: reg2_data : uint64_t, reg2_numRects : int64_t.  Result: (status : 0 loop ends / 1 next iteration / 2.. n-th return). -/
+def region32_union_reg2_nil (reg2_data : Nat) (reg2_numRects : Int) : Int :=
+  if (reg2_data ≠ 0) ∧ (reg2_numRects = 0) then
+    (1)
+  else
+    (0)
+
+/-- `pixman/pixman-region32.c:pixman_region32_union`, condition of if #5 (status 1 = true) (mixed mode).  Arguments: pixman_broken_data : uint64_t, reg2_data : uint64_t.  Result: (status : 0 loop ends / 1 next iteration / 2.. n-th return). -/
+def region32_union_reg2_nar (pixman_broken_data : Nat) (reg2_data : Nat) : Int :=
+  if reg2_data = pixman_broken_data then
+    (1)
+  else
+    (0)
+
+/-- `pixman/pixman-region32.c:pixman_region32_union`, condition of if #7 (status 1 = true) (mixed mode).  Arguments: reg1_data : uint64_t, reg1_x1 : int32_t, reg1_y1 : int32_t, reg1_x2 : int32_t, reg1_y2 : int32_t, reg2_x1 : int32_t, reg2_y1 : int32_t, reg2_x2 : int32_t, reg2_y2 : int32_t.  Result: (status : 0 loop ends / 1 next iteration / 2.. n-th return). -/
+def region32_union_reg1_covers (reg1_data : Nat) (reg1_x1 : Int) (reg1_y1 : Int) (reg1_x2 : Int) (reg1_y2 : Int) (reg2_x1 : Int) (reg2_y1 : Int) (reg2_x2 : Int) (reg2_y2 : Int) : Int :=
+  if (reg1_data = 0) ∧ ((((reg1_x1 ≤ reg2_x1) ∧ (reg1_x2 ≥ reg2_x2)) ∧ (reg1_y1 ≤ reg2_y1)) ∧ (reg1_y2 ≥ reg2_y2)) then
+    (1)
+  else
+    (0)
+
+/-- `pixman/pixman-region32.c:pixman_region32_union`, condition of if #9 (status 1 = true) (mixed mode).  Arguments: reg1_x1 : int32_t, reg1_y1 : int32_t, reg1_x2 : int32_t, reg1_y2 : int32_t, reg2_data : uint64_t, reg2_x1 : int32_t, reg2_y1 : int32_t, reg2_x2 : int32_t, reg2_y2 : int32_t.  Result: (status : 0 loop ends / 1 next iteration / 2.. n-th return). -/
+def region32_union_reg2_covers (reg1_x1 : Int) (reg1_y1 : Int) (reg1_x2 : Int) (reg1_y2 : Int) (reg2_data : Nat) (reg2_x1 : Int) (reg2_y1 : Int) (reg2_x2 : Int) (reg2_y2 : Int) : Int :=
+  if (reg2_data = 0) ∧ ((((reg2_x1 ≤ reg1_x1) ∧ (reg2_x2 ≥ reg1_x2)) ∧ (reg2_y1 ≤ reg1_y1)) ∧ (reg2_y2 ≥ reg1_y2)) then
+    (1)
+  else
+    (0)
+
+/-- `pixman/pixman-region32.c:pixman_region32_subtract`, condition of if #0 (status 1 = true) (mixed mode).  Arguments: reg_m_data : uint64_t, reg_m_numRects : int64_t, reg_m_x1 : int32_t, reg_m_y1 : int32_t, reg_m_x2 : int32_t, reg_m_y2 : int32_t, reg_s_data : uint64_t, reg_s_numRects : int64_t, reg_s_x1 : int32_t, reg_s_y1 : int32_t, reg_s_x2 : int32_t, reg_s_y2 : int32_t.  Result: (status : 0 loop ends / 1 next iteration / 2.. n-th return). -/
+def region32_subtract_nil_or_apart (reg_m_data : Nat) (reg_m_numRects : Int) (reg_m_x1 : Int) (reg_m_y1 : Int) (reg_m_x2 : Int) (reg_m_y2 : Int) (reg_s_data : Nat) (reg_s_numRects : Int) (reg_s_x1 : Int) (reg_s_y1 : Int) (reg_s_x2 : Int) (reg_s_y2 : Int) : Int :=
+  if (((reg_m_data ≠ 0) ∧ (reg_m_numRects = 0)) ∨ ((reg_s_data ≠ 0) ∧ (reg_s_numRects = 0))) ∨ (¬(¬((((reg_m_x2 ≤ reg_s_x1) ∨ (reg_m_x1 ≥ reg_s_x2)) ∨ (reg_m_y2 ≤ reg_s_y1)) ∨ (reg_m_y1 ≥ reg_s_y2)))) then
+    (1)
+  else
+    (0)
+
+/-- `pixman/pixman-region32.c:pixman_region32_subtract`, condition of if #1 (status 1 = true) (mixed mode).  Arguments: pixman_broken_data : uint64_t, reg_s_data : uint64_t.  Result: (status : 0 loop ends / 1 next iteration / 2.. n-th return). -/
+def region32_subtract_nar (pixman_broken_data : Nat) (reg_s_data : Nat) : Int :=
+  if reg_s_data = pixman_broken_data then
+    (1)
+  else
+    (0)
+
+/-- `pixman/pixman-region32.c:pixman_region32_subtract`, condition of if #2 (status 1 = true) (mixed mode).  Arguments: reg_m : uint64_t, reg_s : uint64_t.  Result: (status : 0 loop ends / 1 next iteration / 2.. n-th return). -/
+def region32_subtract_same (reg_m : Nat) (reg_s : Nat) : Int :=
+  if reg_m = reg_s then
+    (1)
+  else
+    (0)
+
+/-- `pixman/pixman-region32.c:pixman_op`, one iteration of loop #1 (mixed mode).  Arguments: r1_end : uint64_t, r1y1 : int32_t, r1_band_end : uint64_t, r1_band_end_y1 : int32_t.  Result: (status : 0 loop ends / 1 next iteration / 2.. n-th return, r1_band_end : uint64_t). -/
+def region32_find_band_r1_step (r1_end : Nat) (r1y1 : Int) (r1_band_end : Nat) (r1_band_end_y1 : Int) : Int × Nat :=
+  if ¬((r1_band_end ≠ r1_end) ∧ (r1_band_end_y1 = r1y1)) then
+    (0, r1_band_end)
+  else
+    let r1_band_end := (r1_band_end + 1) % 18446744073709551616
+    (1, r1_band_end)
+
+/-- `pixman/pixman-region32.c:pixman_op`, one iteration of loop #2 (mixed mode).  Arguments: r2_end : uint64_t, r2y1 : int32_t, r2_band_end : uint64_t, r2_band_end_y1 : int32_t.  Result: (status : 0 loop ends / 1 next iteration / 2.. n-th return, r2_band_end : uint64_t). -/
+def region32_find_band_r2_step (r2_end : Nat) (r2y1 : Int) (r2_band_end : Nat) (r2_band_end_y1 : Int) : Int × Nat :=
+  if ¬((r2_band_end ≠ r2_end) ∧ (r2_band_end_y1 = r2y1)) then
+    (0, r2_band_end)
+  else
+    let r2_band_end := (r2_band_end + 1) % 18446744073709551616
+    (1, r2_band_end)
+
+/-- `pixman/pixman-region32.c:pixman_op`, one iteration of loop #3 (mixed mode).  Arguments: r1_end : uint64_t, r1y1 : int32_t, r1_band_end : uint64_t, r1_band_end_y1 : int32_t.  Result: (status : 0 loop ends / 1 next iteration / 2.. n-th return, r1_band_end : uint64_t). -/
+def region32_find_band_tail_r1_step (r1_end : Nat) (r1y1 : Int) (r1_band_end : Nat) (r1_band_end_y1 : Int) : Int × Nat :=
+  if ¬((r1_band_end ≠ r1_end) ∧ (r1_band_end_y1 = r1y1)) then
+    (0, r1_band_end)
+  else
+    let r1_band_end := (r1_band_end + 1) % 18446744073709551616
+    (1, r1_band_end)
+
+/-- `pixman/pixman-region32.c:pixman_op`, one iteration of loop #4 (mixed mode).  Arguments: r2_end : uint64_t, r2y1 : int32_t, r2_band_end : uint64_t, r2_band_end_y1 : int32_t.  Result: (status : 0 loop ends / 1 next iteration / 2.. n-th return, r2_band_end : uint64_t). -/
+def region32_find_band_tail_r2_step (r2_end : Nat) (r2y1 : Int) (r2_band_end : Nat) (r2_band_end_y1 : Int) : Int × Nat :=
+  if ¬((r2_band_end ≠ r2_end) ∧ (r2_band_end_y1 = r2y1)) then
+    (0, r2_band_end)
+  else
+    let r2_band_end := (r2_band_end + 1) % 18446744073709551616
+    (1, r2_band_end)
+
+/-- `pixman/pixman-region32.c:pixman_op`, condition of if #3 (status 1 = true) (mixed mode).  Arguments: new_reg : uint64_t, reg1 : uint64_t, reg2 : uint64_t, new_size : int32_t, numRects : int32_t.  Result: (status : 0 loop ends / 1 next iteration / 2.. n-th return). -/
+def region32_op_keeps_old_data (new_reg : Nat) (reg1 : Nat) (reg2 : Nat) (new_size : Int) (numRects : Int) : Int :=
+  if ((new_reg = reg1) ∧ (new_size > 1)) ∨ ((new_reg = reg2) ∧ (numRects > 1)) then
+    (1)
+  else
+    (0)
+
+/-- `pixman/pixman-region32.c:pixman_op`, condition of if #11 (status 1 = true) (mixed mode).  Arguments: r1y1 : int32_t, r2y1 : int32_t.  Result: (status : 0 loop ends / 1 next iteration / 2.. n-th return). -/
+def region32_op_r1_above (r1y1 : Int) (r2y1 : Int) : Int :=
+  if r1y1 < r2y1 then
+    (1)
+  else
+    (0)
+
+/-- `pixman/pixman-region32.c:pixman_op`, condition of if #16 (status 1 = true) (mixed mode).  Arguments: r1y1 : int32_t, r2y1 : int32_t.  Result: (status : 0 loop ends / 1 next iteration / 2.. n-th return). -/
+def region32_op_r2_above (r1y1 : Int) (r2y1 : Int) : Int :=
+  if r2y1 < r1y1 then
+    (1)
+  else
+    (0)
+
+/-- `pixman/pixman-region32.c:pixman_op`, condition of if #13 (status 1 = true) (mixed mode).  Arguments: top : int32_t, bot : int32_t.  Result: (status : 0 loop ends / 1 next iteration / 2.. n-th return). -/
+def region32_op_non_o_nonempty (top : Int) (bot : Int) : Int :=
+  if top ≠ bot then
+    (1)
+  else
+    (0)
+
+/-- `pixman/pixman-region32.c:pixman_op`, condition of if #15 (status 1 = true) (mixed mode).  Arguments: prev_band : int32_t, cur_band : int32_t, new_numRects : int64_t.  Result: (status : 0 loop ends / 1 next iteration / 2.. n-th return). -/
+def region32_op_coalesce_wanted (prev_band : Int) (cur_band : Int) (new_numRects : Int) : Int :=
+  if cur_band - prev_band = new_numRects - cur_band then
+    (1)
+  else
+    (0)
+
+/-- `pixman/pixman-region32.c:pixman_op`, condition of if #21 (status 1 = true) (mixed mode).  Arguments: ybot : int32_t, ytop : int32_t.  Result: (status : 0 loop ends / 1 next iteration / 2.. n-th return). -/
+def region32_op_overlap_nonempty (ybot : Int) (ytop : Int) : Int :=
+  if ybot > ytop then
+    (1)
+  else
+    (0)
+
+/-- `pixman/pixman-region32.c:pixman_op`, condition of if #24 (status 1 = true) (mixed mode).  Arguments: ybot : int32_t, r1_y2 : int32_t.  Result: (status : 0 loop ends / 1 next iteration / 2.. n-th return). -/
+def region32_op_r1_done (ybot : Int) (r1_y2 : Int) : Int :=
+  if r1_y2 = ybot then
+    (1)
+  else
+    (0)
+
+/-- `pixman/pixman-region32.c:pixman_op`, condition of if #25 (status 1 = true) (mixed mode).  Arguments: ybot : int32_t, r2_y2 : int32_t.  Result: (status : 0 loop ends / 1 next iteration / 2.. n-th return). -/
+def region32_op_r2_done (ybot : Int) (r2_y2 : Int) : Int :=
+  if r2_y2 = ybot then
+    (1)
+  else
+    (0)
+
+/-- `pixman/pixman-region32.c:pixman_op`, condition of if #26 (status 1 = true) (mixed mode).  Arguments: append_non1 : int32_t, r1_end : uint64_t, r1 : uint64_t.  Result: (status : 0 loop ends / 1 next iteration / 2.. n-th return). -/
+def region32_op_r1_tail (append_non1 : Int) (r1_end : Nat) (r1 : Nat) : Int :=
+  if (r1 ≠ r1_end) ∧ (append_non1 ≠ 0) then
+    (1)
+  else
+    (0)
+
+/-- `pixman/pixman-region32.c:pixman_op`, condition of if #32 (status 1 = true) (mixed mode).  Arguments: append_non2 : int32_t, r2_end : uint64_t, r2 : uint64_t.  Result: (status : 0 loop ends / 1 next iteration / 2.. n-th return). -/
+def region32_op_r2_tail (append_non2 : Int) (r2_end : Nat) (r2 : Nat) : Int :=
+  if (r2 ≠ r2_end) ∧ (append_non2 ≠ 0) then
+    (1)
+  else
+    (0)
+
+/-- `pixman/pixman-region32.c:pixman_region32_contains_rectangle`, one iteration of loop #0 (mixed mode).  Arguments: part_in : int32_t, part_out : int32_t, x : int32_t, y : int32_t, pbox : uint64_t, pboxn_y1 : int32_t, pboxn_x2 : int32_t, pboxn_x1 : int32_t, pboxn_y2 : int32_t, prect_x1 : int32_t, prect_x2 : int32_t, prect_y2 : int32_t.  Result: (status : 0 loop ends / 1 next iteration / 2.. n-th return, part_in : int32_t, part_out : int32_t, x : int32_t, y : int32_t, pbox : uint64_t). -/
+def region32_contains_rectangle_step (part_in : Int) (part_out : Int) (x : Int) (y : Int) (pbox : Nat) (pboxn_y1 : Int) (pboxn_x2 : Int) (pboxn_x1 : Int) (pboxn_y2 : Int) (prect_x1 : Int) (prect_x2 : Int) (prect_y2 : Int) : Int × Int × Int × Int × Int × Nat :=
+  if pboxn_y1 > y then
+    let part_out := 1
+    if (part_in ≠ 0) ∨ (pboxn_y1 ≥ prect_y2) then
+      (0, part_in, part_out, x, y, pbox)
+    else
+      let y := pboxn_y1
+      if pboxn_x2 ≤ x then
+        let pbox := (pbox + 1) % 18446744073709551616
+        (1, part_in, part_out, x, y, pbox)
+      else
+        let ret2 := 0
+        let j3 := if pboxn_x1 > x then
+            let part_out := 1
+            if part_in ≠ 0 then
+              let ret2 := 1
+              (part_out, ret2)
+            else
+              (part_out, ret2)
+          else
+            (part_out, ret2)
+        let part_out := j3.1
+        let ret2 := j3.2
+        if ret2 = 1 then
+          (0, part_in, part_out, x, y, pbox)
+        else
+          let ret4 := 0
+          let j5 := if pboxn_x1 < prect_x2 then
+              let part_in := 1
+              if part_out ≠ 0 then
+                let ret4 := 1
+                (part_in, ret4)
+              else
+                (part_in, ret4)
+            else
+              (part_in, ret4)
+          let part_in := j5.1
+          let ret4 := j5.2
+          if ret4 = 1 then
+            (0, part_in, part_out, x, y, pbox)
+          else
+            if pboxn_x2 ≥ prect_x2 then
+              let y := pboxn_y2
+              if y ≥ prect_y2 then
+                (0, part_in, part_out, x, y, pbox)
+              else
+                let x := prect_x1
+                let pbox := (pbox + 1) % 18446744073709551616
+                (1, part_in, part_out, x, y, pbox)
+            else
+              let part_out := 1
+              (0, part_in, part_out, x, y, pbox)
+  else
+    if pboxn_x2 ≤ x then
+      let pbox := (pbox + 1) % 18446744073709551616
+      (1, part_in, part_out, x, y, pbox)
+    else
+      let ret7 := 0
+      let j8 := if pboxn_x1 > x then
+          let part_out := 1
+          if part_in ≠ 0 then
+            let ret7 := 1
+            (part_out, ret7)
+          else
+            (part_out, ret7)
+        else
+          (part_out, ret7)
+      let part_out := j8.1
+      let ret7 := j8.2
+      if ret7 = 1 then
+        (0, part_in, part_out, x, y, pbox)
+      else
+        let ret9 := 0
+        let j10 := if pboxn_x1 < prect_x2 then
+            let part_in := 1
+            if part_out ≠ 0 then
+              let ret9 := 1
+              (part_in, ret9)
+            else
+              (part_in, ret9)
+          else
+            (part_in, ret9)
+        let part_in := j10.1
+        let ret9 := j10.2
+        if ret9 = 1 then
+          (0, part_in, part_out, x, y, pbox)
+        else
+          if pboxn_x2 ≥ prect_x2 then
+            let y := pboxn_y2
+            if y ≥ prect_y2 then
+              (0, part_in, part_out, x, y, pbox)
+            else
+              let x := prect_x1
+              let pbox := (pbox + 1) % 18446744073709551616
+              (1, part_in, part_out, x, y, pbox)
+          else
+            let part_out := 1
+            (0, part_in, part_out, x, y, pbox)
+
 end Pixman.Gen.CFuncs
